@@ -178,6 +178,7 @@ class Project:
         self.backend = backend
         self.sim = simsched.SimCluster(backend, first_id=first_id) if backend in ("slurm", "sge", "lsf") else None
         self.tick = 0
+        self.base_mtime = BASE_MTIME  # mtime of tick 0; ticks are 10 s apart
         self.desc = None
         self._server = None
         with open(os.path.join(self.dir, "workflow.py"), "w") as f:
@@ -203,9 +204,20 @@ class Project:
         if desc.get("workflow_wd"):
             os.makedirs(self.path(desc["workflow_wd"]), exist_ok=True)
 
-    def write_config(self, cfg):
+    def write_config(self, cfg, via_cli=False):
+        """Write the project configuration, either as a file or - the way a user does it - through
+        `gwf config set` with the documented spellings (yes/no for booleans)."""
+        if not via_cli:
+            with open(self.path(".gwfconf.json"), "w") as f:
+                json.dump(cfg, f)
+            return
         with open(self.path(".gwfconf.json"), "w") as f:
-            json.dump(cfg, f)
+            json.dump({"backend": cfg.get("backend", self.backend)}, f)
+        for k, v in cfg.items():
+            text = ("yes" if v else "no") if isinstance(v, bool) else str(v)
+            r = self.gwf(["config", "set", "--", k, text])
+            if r.code != 0:
+                raise HarnessError("config set failed: " + r.brief())
 
     def read_config(self):
         try:
@@ -214,8 +226,10 @@ class Project:
         except FileNotFoundError:
             return {}
 
-    def set_files(self, files, content=None):
-        """files: rel -> tick | None.  Creates parents of every mentioned path."""
+    def set_files(self, files, content=None, symlinks=()):
+        """files: rel -> tick | None.  Creates parents of every mentioned path.
+        Paths listed in `symlinks` are created as symbolic links to a file kept in _store/ (raw data linked
+        into the project); their modification time is the pointee's, the link itself is dated long ago."""
         for rel, tick in files.items():
             p = self.path(rel)
             os.makedirs(os.path.dirname(p), exist_ok=True)
@@ -223,14 +237,22 @@ class Project:
                 if os.path.lexists(p):
                     os.remove(p)
             else:
-                if not os.path.exists(p):
-                    with open(p, "w") as f:
-                        f.write((content or {}).get(rel, f"content of {rel}\n"))
+                if not os.path.lexists(p):
+                    if rel in symlinks:
+                        store = self.path(os.path.join("_store", rel.replace("/", "__")))
+                        os.makedirs(os.path.dirname(store), exist_ok=True)
+                        with open(store, "w") as f:
+                            f.write((content or {}).get(rel, f"content of {rel}\n"))
+                        os.symlink(store, p)
+                        os.utime(p, (BASE_MTIME - 1000, BASE_MTIME - 1000), follow_symlinks=False)
+                    else:
+                        with open(p, "w") as f:
+                            f.write((content or {}).get(rel, f"content of {rel}\n"))
                 self.stamp(rel, tick)
             self.tick = max(self.tick, tick or 0)
 
     def stamp(self, rel, tick):
-        t = BASE_MTIME + tick * 10
+        t = self.base_mtime + tick * 10
         os.utime(self.path(rel), (t, t))
 
     def next_tick(self):
@@ -242,7 +264,7 @@ class Project:
             m = os.stat(self.path(rel)).st_mtime
         except FileNotFoundError:
             return None
-        return (m - BASE_MTIME) / 10
+        return (m - self.base_mtime) / 10
 
     def file_state(self, rels):
         return {r: self.tick_of(r) for r in rels}
